@@ -442,6 +442,11 @@ fn tied_plain_values(g: &mut Xo, rep: &mut Report) {
         one(&format!("Tournament({k})"), &t, &as_u8, k > n, mix(seed, 100 + k as u64), rep);
         one(&format!("Tournament({k})"), &t, &as_pairs, k > n, mix(seed, 200 + k as u64), rep);
     }
+    // tournament sizes far beyond any population: the documented error, nothing sized after them
+    for k in [usize::MAX, usize::MAX - 1, 1usize << 60, 1 << 40, u32::MAX as usize + 1] {
+        let t = Tournament::new(std::num::NonZeroUsize::new(k).unwrap());
+        one(&format!("Tournament({k})"), &t, &vals, true, mix(seed, k as u64), rep);
+    }
     one("Best", &Best, &vals, false, seed, rep);
     one("Worst", &Worst, &as_u8, false, seed, rep);
     one("Random", &Random, &as_pairs, false, seed, rep);
